@@ -228,7 +228,13 @@ where
 		rb = rb.header(k.as_str(), v.as_str());
 	}
 	let req = rb.body(frames_body(frames)).expect("harness builds a valid request");
-	let resp = svc.call(req).await.expect("tower service is infallible here");
+	// the HTTP path runs the library's code inside the caller's task: a panic in it is an observation about the code under test
+	// (status 599 stands for it), not a reason for the harness to die
+	use futures_util::FutureExt;
+	let resp = match std::panic::AssertUnwindSafe(svc.call(req)).catch_unwind().await {
+		Ok(r) => r.expect("tower service is infallible here"),
+		Err(_) => return HttpReply { status: 599, body: b"the server's code panicked while handling the request".to_vec(), content_type: None },
+	};
 	let (parts, body) = resp.into_parts();
 	let bytes = body.collect().await.map(|c| c.to_bytes().to_vec()).unwrap_or_default();
 	HttpReply {
